@@ -49,4 +49,7 @@ func init() {
 	setProp("C12", "DESIGN.md §4 C12",
 		"Decides: the Envelope predicates and measures (Contains, Intersects, Covers, IsPoint/IsLine/IsRectangle, Width/Height/Area, Distance) equal their closed-interval definitions on every weak ordering of the ordinates and every emptiness combination.",
 		"that Envelope() of each geometry is the tightest box over its control points (fold rules not yet included); NaN behaviour.")
+	setProp("C02", "DESIGN.md §4 C02",
+		"Decides: the DE-9IM pattern sets of the nine named predicates (as matched sets over all 4^9 matrices, per dimension case), the matcher's acceptance table, the matrix index/closed-form/transposition of Relate's empty-operand branch, the face/half-edge/vertex location tables and the mod-2 boundary flag machine of lineal input.",
+		"that the overlay labels (inSet) from which the matrix is read are geometrically right; the fill order of the matrix extraction (not yet included).")
 }
